@@ -101,7 +101,7 @@ static int is_key (const char *t)
 }
 
 /* ------------------------------------------------------------ options / item state */
-enum { M_TOK, M_MUT, M_TRUNC, M_LONG, M_OWN };
+enum { M_TOK, M_MUT, M_TRUNC, M_LONG, M_OWN, M_REC };
 static int o_mode, o_fmt, o_k, o_radius, o_comp, o_via, o_base, o_solve;
 static long n_items;
 static Buf g_in;                /* the input bytes of the current item */
@@ -294,6 +294,32 @@ static int gen_tok (long item)
 	return f;
 }
 
+
+/* ------------------------------------------------------------ mode=rec: every sequence of <= k whole records (lines) after each valid prefix
+ * (sections out of order, repeated and interleaved sections, records of one section inside another, a second ENDATA ...) */
+static const char *rec_mps[] = { "ROWS\n", " N obj2\n", " L r3\n", "COLUMNS\n", " c3 obj 1 r1 1\n", " c4 obj 2 r2 1\n", "RHS\n", " rhs r1 4\n", "RANGES\n", " rng r1 2\n", " rng r2 -1\n",
+	"BOUNDS\n", " UP bnd c1 4\n", " UP bnd c3 5\n", " LO bnd c4 -2\n", " FR bnd c4\n", "OBJSENSE\n MAX\n", "OBJNAME\n r1\n", "ENDATA\n" };
+static const char *rec_lp[] = { "max x + y\n", "min\n", "st\n", "c2: x - y >= 1\n", "c3: z <= 2\n", "-1 <= x + y <= 3\n", "bounds\n", "x <= 4\n", "-2 <= z <= 2\n", "z free\n", "y = 1\n", "integer\n", "x z\n", "end\n" };
+static const char *rec_bas[] = { "NAME verif\n", " XU x c1\n", " XL y c2\n", " UL x\n", " LL y\n", " XU y c1\n", " UL y\n", "ENDATA\n" };
+static const char **rec_of[3] = { rec_lp, rec_mps, rec_bas };
+static const int rec_n[3] = { 14, 19, 8 };
+static int gen_rec (long item)
+{
+	int f = o_fmt, A = rec_n[f];
+	long per = seq_count (A, o_k), pi = item / per, s = item % per, p = 1;
+	int len = 0, seq[16];
+	while (s >= p) { s -= p; p *= A; len++; }
+	for (int j = len - 1; j >= 0; j--) { seq[j] = (int) (s % A); s /= A; }
+	b_str (&g_in, pre_of[f][pi]);
+	int k = (int) snprintf (g_desc, sizeof g_desc, "mode=rec fmt=%s prefix#%ld records:", fmt_name[f], pi);
+	for (int j = 0; j < len; j++) {
+		const char *t = rec_of[f][seq[j]];
+		b_str (&g_in, t);
+		if (k < (int) sizeof g_desc - 24) { k += snprintf (g_desc + k, sizeof g_desc - (size_t) k, " [%.18s", t[0] == ' ' ? t + 1 : t); for (char *c = g_desc; *c; c++) if (*c == '\n') *c = '|'; if (k < (int) sizeof g_desc - 2) { g_desc[k++] = ']'; g_desc[k] = 0; } }
+	}
+	return f;
+}
+
 /* ------------------------------------------------------------ mode=mut */
 static int apply_edit (Tok * t, int *n, int pos, int e, const char **A, char *what, size_t wl)
 {
@@ -394,10 +420,10 @@ static int gen_trunc (long item)
 static void rdr_init (void)
 {
 	const char *m = opt_str ("mode", "tok"), *f = opt_str ("fmt", NULL), *c = opt_str ("comp", ""), *v = opt_str ("via", "file");
-	o_mode = !strcmp (m, "mut") ? M_MUT : !strcmp (m, "trunc") ? M_TRUNC : !strcmp (m, "long") ? M_LONG : !strcmp (m, "own") ? M_OWN : M_TOK;
-	o_fmt = o_mode == M_TOK ? F_LP : F_ALL;
+	o_mode = !strcmp (m, "mut") ? M_MUT : !strcmp (m, "trunc") ? M_TRUNC : !strcmp (m, "long") ? M_LONG : !strcmp (m, "own") ? M_OWN : !strcmp (m, "rec") ? M_REC : M_TOK;
+	o_fmt = (o_mode == M_TOK || o_mode == M_REC) ? F_LP : F_ALL;
 	if (f) for (int i = 0; i < 4; i++) if (!strcmp (f, fmt_name[i])) o_fmt = i;
-	if (o_mode == M_TOK && o_fmt == F_ALL) o_fmt = F_LP;
+	if ((o_mode == M_TOK || o_mode == M_REC) && o_fmt == F_ALL) o_fmt = F_LP;
 	o_k = (int) opt_int ("k", 2); if (o_k > 8) o_k = 8;
 	o_radius = (int) opt_int ("radius", 1);
 	o_comp = !strcmp (c, "gz") ? 1 : !strcmp (c, "bz2") ? 2 : 0;
@@ -409,6 +435,7 @@ static void rdr_init (void)
 	for (int b = 0; b < NBASE; b++) { tokenize (b); b_len[b] = strlen (bases[b].text); build_voc (b); }
 	n_items = 0;
 	if (o_mode == M_TOK) n_items = pre_n[o_fmt] * seq_count (alpha_n[o_fmt], o_k);
+	else if (o_mode == M_REC) n_items = pre_n[o_fmt] * seq_count (rec_n[o_fmt], o_k);
 	else if (o_mode == M_LONG) { long_build (); n_items = n_long; }
 	else for (int b = 0; b < NBASE; b++) {
 		b_cum[b] = n_items;
@@ -703,6 +730,7 @@ static void rdr_run (long item)
 	g_desc[0] = 0; g_expect_ok = 0;
 	switch (o_mode) {
 	case M_TOK: fmt = gen_tok (item); break;
+	case M_REC: fmt = gen_rec (item); break;
 	case M_MUT: fmt = gen_mut (item); break;
 	case M_OWN: fmt = gen_own (item); break;
 	case M_TRUNC: fmt = gen_trunc (item); break;
